@@ -427,7 +427,7 @@ func (y *sys) oracle(ev string) bool {
 			return false
 		}
 		for _, f := range frames {
-			if f.length > e.maxFrame && (y.focus == "C09" || f.length > e.maxFrameEver) {
+			if f.length > e.maxFrame { // since fix b24b29c C10 holds the relay to the current limit too (a receiver answers FRAME_SIZE_ERROR)
 				sig := "frame-exceeds-max-frame-size"
 				if f.length <= e.maxFrameEver && e.queuedAtLowering {
 					// the frame was cut to the limit in force when the relay accepted it and queued; the receiver lowered its
@@ -436,7 +436,7 @@ func (y *sys) oracle(ev string) bool {
 				}
 				if y.focus == "C10" {
 					// a conforming receiver answers such a frame with FRAME_SIZE_ERROR: what it carries is never decoded
-					// (frames cut before the receiver lowered its limit are filed under C09's known finding only)
+					// (until fix b24b29c frames cut before the receiver lowered its limit were filed under C09's known finding only)
 					sig = "frame-undecodable/exceeds-max-frame-size"
 				}
 				x.Failf(sig, "after %s: %s received a %v frame with %d payload octets, its SETTINGS_MAX_FRAME_SIZE is %d", ev, e.name, f.typ, f.length, e.maxFrame)
